@@ -326,6 +326,34 @@ func runC16(c *Ctx) {
 			c.R.Add(vh.Mismatch{Kind: "spec", What: "decoding differs with and without a trailing CRC32 checksum", Case: body.String(), Expected: decoded[0], Impl: decoded[1], InDomain: true})
 		}
 	}
+	// the shortest events: a STOP event is its 19-byte header and nothing else (23 bytes on a master that writes CRC32
+	// checksums); bodies of 1..5 bytes.  Stripping takes the last four bytes, whatever is left is the event.
+	for _, crc := range []bool{false, true} {
+		for bl := 0; bl <= 5; bl++ {
+			for _, maria := range []bool{false, true} {
+				cfg := baseCfg(r, 0)
+				cfg.CRC = crc
+				fi := mkFormat(c, cfg, []byte("5.7.30-log"))
+				ev, _ := c.M.Call(mkEventReq(cfg, randHdr(r), vh.L(vh.A("raw"), vh.I(int64(r.Pick(3, 3, 27, 16))), vh.X(r.Bytes(bl))), r.Bytes(4))).Nth(0).Hex()
+				fl := int64(0)
+				if maria {
+					fl = 1
+				}
+				m := c.M.Call(vh.L(vh.A("control"), fi.val, vh.X(ev), vh.I(fl))).Nth(5)
+				i := implControl(fi.f, ev, maria).Nth(5)
+				c.R.Count(fmt.Sprintf("strip/short-event/body%d/crc%v/maria%v", bl, crc, maria))
+				cse := fmt.Sprintf("event %x (header + %d body bytes, checksum %v, maria %v)", ev, bl, crc, maria)
+				if m.String() != i.String() {
+					c.R.Add(vh.Mismatch{Kind: "corr", What: "StripChecksum differs from the model on a short event", Case: cse, Model: m.String(), Impl: i.String(), InDomain: true})
+				}
+				want := 19 + bl
+				if st, ok := i.Nth(1).Hex(); i.Nth(0).Atom != "ok" || !ok || len(st) != want {
+					c.R.Add(vh.Mismatch{Kind: "spec", What: "StripChecksum rejects or mis-cuts a well-formed short event (a header-only STOP event, a body of a few bytes)", Case: cse,
+						Expected: fmt.Sprintf("ok, %d bytes", want), Impl: i.String(), InDomain: true})
+				}
+			}
+		}
+	}
 	// checksum algorithm byte: off, CRC32, undefined, unknown
 	for _, alg := range []int64{0, 1, 255, 2, 7, 200} {
 		cfg := baseCfg(r, 0)
